@@ -99,6 +99,26 @@ class LedgerMonitor(hist.Monitor):
                 mine *= -1.0
                 mine += 12345.0
                 ctx.count("caller_wrote_into_returned_volumes_array")
+        # ... and so does an array taken from .history (rescaled for a plot, say): the well volumes are not a
+        # function of what the caller does to it.  The caller puts the old numbers back afterwards, because what
+        # the history shows later is C11's business, not this property's.
+        for name, lw in eng.world.lw.items():
+            if eng.rng.random() < 0.12:
+                try:
+                    arr = lw.history[-1][1]
+                except Exception:
+                    continue
+                if isinstance(arr, np.ndarray) and arr.size and arr.flags.writeable:
+                    before = np.array(lw.volumes, dtype=float, copy=True)
+                    saved = arr.copy()
+                    arr *= 0.001
+                    arr[arr < 0.01] = 0.0
+                    now = np.array(lw.volumes, dtype=float, copy=True)
+                    arr[...] = saved
+                    ctx.count("caller_wrote_into_newest_history_array")
+                    ctx.check("volumes_change_only_through_add_and_remove", bool(np.array_equal(now, before)),
+                              lambda: {"labware": name, "volumes_before_the_caller_edited_the_history_array": before.tolist(),
+                                       "volumes_afterwards": now.tolist(), "history_tail": eng.tail()})
         post = {n: eng.cur(n) for n in eng.descs}
         els = hist.elements(op)
         valid = all(math.isfinite(v) for _, _, v in els)
